@@ -68,6 +68,9 @@ FAMILIES = {
         dict(part="F", keys=["a", "b"], depth=3, lo=0, hi=1, vals="fmid", must=None, m=12),
         dict(part="F", keys=["a", "b"], depth=2, lo=2, hi=2, vals="tiny", must=None, m=40),
     ] + [dict(part="F", keys=["a", k], depth=3, lo=0, hi=1, vals="fmid", must=k, m=6) for k in SPECIAL] + [
+        # two sibling members of which one has a special key (a key spelled like a glob next to a key the glob matches)
+        dict(part="F", keys=["a", k], depth=2, lo=2, hi=2, vals="tiny", must=k, m=8) for k in ("*",)] + [
+        dict(part="A", keys=["a", "*"], depth=2, lo=2, hi=2, vals="tiny", must="*", m=2),
         dict(part="P", keys=["a", "b"], depth=3, lo=0, hi=1, vals="full", must=None, m=12),
         dict(part="P", keys=["a", "b"], depth=2, lo=2, hi=2, vals="small", must=None, m=12),
     ] + [dict(part="P", keys=["a", k], depth=2, lo=0, hi=1, vals="full", must=k, m=3) for k in SPECIAL] + [
